@@ -59,10 +59,30 @@ const char * const API_NAME[API_COUNT] = {
   "api_alias_cast_getorigin_getend", "api_alias_cast_getend", "api_alias_cast_getorigin",
   "api_alias_setend_getorigin_cast", "api_alias_setorigin_getend_cast_q"};
 
-enum Disturb {DI_NONE = 0, DI_NEXT, DI_STALE_CAST, DI_SETEND, DI_SETORIGIN, DI_COUNT};
+enum Disturb
+{
+  DI_NONE = 0, DI_NEXT, DI_STALE_CAST, DI_SETEND, DI_SETORIGIN, DI_VALUE_OP, DI_SAME_GRID_AGAIN,
+  DI_LONG_256, DI_LONG_65536, DI_COUNT
+};
 const char * const DI_NAME[DI_COUNT] = {
   "disturb_none", "disturb_stray_next", "disturb_stale_cast", "disturb_setend_only",
-  "disturb_setorigin_only"};
+  "disturb_setorigin_only", "disturb_caster_copied_or_moved", "disturb_same_grid_set_again",
+  "disturb_mutator_repeated_2p8_plus_k", "disturb_mutator_repeated_2p16_plus_k"};
+
+// value-semantics operations on the caster under test; afterwards the history goes on with the
+// object named last
+enum ValueOp
+{
+  VO_COPY_CONSTRUCT = 0,   // copy, then the source is overwritten and destroyed -> copy
+  VO_COPY_ASSIGN,          // assigned over a used caster, source overwritten and destroyed -> target
+  VO_MOVE_CONSTRUCT, VO_MOVE_ASSIGN,
+  VO_SELF_ASSIGN,          // -> same object
+  VO_COPY_USED_SOURCE_KEPT,   // a copy is made and used for other rays -> source
+  VO_COUNT
+};
+const char * const VO_NAME[VO_COUNT] = {
+  "value_copy_construct", "value_copy_assign", "value_move_construct", "value_move_assign",
+  "value_self_assign", "value_copy_used_source_kept"};
 
 template<int D>
 bool slab_hit(const LD * A, const LD * B, const LD * lo, const LD * hi, LD e)
@@ -170,6 +190,15 @@ struct Runner
           v = r.coin() ? static_cast<S>(k * res) : static_cast<S>((k + S(0.5)) * res);
           break;
         }
+      case 6: {                                                                    // exact special values
+          static const S SP[] = {S(0), -S(0), std::numeric_limits<S>::denorm_min(), -std::numeric_limits<S>::denorm_min(),
+            std::numeric_limits<S>::min(), -std::numeric_limits<S>::min(), S(1), S(-1)};
+          int q = static_cast<int>(r.range(0, 9));
+          if (q < 8) {v = SP[q];} else {
+            v = static_cast<S>(std::round(r.uni(static_cast<double>(lo), static_cast<double>(hi))));   // an integer
+          }
+          break;
+        }
       case 5: {                                                                    // close to centre / border
           S c0 = ctr[r.range(0, n - 1)];
           double off = r.sign() * r.logu(1e-7, 1e-2) * static_cast<double>(res);
@@ -183,13 +212,17 @@ struct Runner
   static P pick_point(vh::Rng & r, const G & m, const GridDesc & g, int forced_mode = -1)
   {
     P p;
-    // generic 35 %, centre 15 %, border 15 %, extent bound 10 %, k*res 15 %, near centre/border 10 %
-    static const int MODES[20] = {0, 0, 0, 0, 0, 0, 0, 1, 1, 1, 2, 2, 2, 3, 3, 4, 4, 4, 5, 5};
+    // generic 30 %, centre 15 %, border 15 %, extent bound 10 %, k*res 15 %, near centre/border 10 %,
+    // special values (0, -0, denormals, smallest normal, +-1, integers) 5 %
+    static const int MODES[20] = {0, 0, 0, 0, 0, 0, 6, 1, 1, 1, 2, 2, 2, 3, 3, 4, 4, 4, 5, 5};
     int common = MODES[r.range(0, 19)];
     bool same = r.coin(0.4);
     for (int i = 0; i < D; ++i) {
       int mode = forced_mode >= 0 ? forced_mode : (same ? common : MODES[r.range(0, 19)]);
       p[i] = pick_coord(r, m, g, i, mode);
+    }
+    if (forced_mode < 0 && r.coin(0.04)) {      // all components equal (when the extents allow it)
+      for (int i = 1; i < D; ++i) {p[i] = clampS(p[0], g.lower[i], g.upper[i]);}
     }
     return p;
   }
@@ -239,6 +272,11 @@ struct Runner
           lo = -res * std::floor(r.uni() * (w / res));
         } else if (om == 7) {                // starts or ends at the frame origin
           lo = r.coin() ? 0.0 : -w;
+        } else if (om == 9 && r.coin(0.6)) { // far from the frame origin: |bound| log-spaced up to max_coord_cells() cells
+          double top = std::max(1100.0, max_coord_cells() * res - w);
+          lo = r.logu(1000.0, top);
+          if (r.coin()) {lo = -lo - w;}
+          if (r.coin()) {lo = res * std::round(lo / res);}
         } else {                             // offset grid, |bounds| <= 1000
           double room = 1000.0 - w;
           lo = r.uni(-1000.0, -1000.0 + 2 * room);
@@ -266,6 +304,17 @@ struct Runner
     g.coord_cells = mx / static_cast<LD>(g.res);
   }
 
+  // largest coordinate magnitude, in cells, of the generated grids: the unchanged mapping stays
+  // consistent (cell counts, indexes in range) up to here; found by sweeping, see checks/C14.py
+  static double max_coord_cells()
+  {
+    static const double v = []() {
+        if (const char * e = getenv(ScalarName<S>::bits == 32 ? "VERIF_C14_MAXCC_F" : "VERIF_C14_MAXCC_D")) {return atof(e);}
+        return ScalarName<S>::bits == 32 ? 1.0e5 : 1.0e5;
+      }();
+    return v;
+  }
+
   static S pick_res(vh::Rng & r)
   {
     static const double RES[] = {0.1, 0.125, 0.01, 1.0, 0.5, 0.25, 0.05, 0.2, 0.0625, 0.015625};
@@ -284,7 +333,11 @@ struct Runner
     if (mode <= 1 || r.coin()) {
       for (int t = 0; t < 6; ++t) {
         S res = pick_res(r);
-        if (wmax / static_cast<double>(res) + 3 <= 1999 && res != g0.res) {g.res = res; break;}
+        if (wmax / static_cast<double>(res) + 3 <= 1999 && res != g0.res &&
+          (res >= g0.res || static_cast<double>(g0.coord_cells) * static_cast<double>(g0.res) / static_cast<double>(res) <= max_coord_cells()))
+        {
+          g.res = res; break;
+        }
       }
     }
     if (mode == 2) {
@@ -321,6 +374,8 @@ struct Runner
     const GridDesc * g; const G * m;
     P o, e;
     int ray_kind, api, disturb, cast_no;
+    const P * bound_o = nullptr; const P * bound_e = nullptr;       // references bound right after the cast,
+    const C * bound_oi = nullptr; const C * bound_ei = nullptr;     // read after other objects were used
     int grid_changed = 0;     // 1: first cast after the grid seen by the caster changed, 2: ... with the previous origin
     LD ncoord;      // max(cells per axis, coordinate magnitude in cells)
   };
@@ -429,6 +484,9 @@ struct Runner
       bool ok = rc.getOriginPoint() == ci.o && rc.getEndPoint() == ci.e &&
         rc.getOriginPointIndexes() == oi && rc.getEndPointIndexes() == ei &&
         rc.computeRayNumberOfCells() == ray.size();
+      if (ci.bound_o) {
+        ok = ok && *ci.bound_o == ci.o && *ci.bound_e == ci.e && *ci.bound_oi == oi && *ci.bound_ei == ei;
+      }
       c.expect("accessors", ok, "accessor_mismatch", params, wit);
     }
 
@@ -592,15 +650,67 @@ struct Runner
       };
     grid_cats(*slot[0].m, slot[0].g);
 
-    RC rc_owner;
-    if (r.coin(0.3)) {rc_owner.setGridIndexMapping(slot[0].m.get());} else {rc_owner = RC(slot[0].m.get());}
-    RC & rc = rc_owner;
+    std::unique_ptr<RC> rcp;
+    if (r.coin(0.3)) {rcp.reset(new RC()); rcp->setGridIndexMapping(slot[0].m.get());} else {rcp.reset(new RC(slot[0].m.get()));}
+    RC * cp = rcp.get();          // the caster under test (changes with the value-semantics steps)
+
+    // rays are bound as returned and kept until the end of the case
+    std::vector<Ray> kept; std::vector<uint64_t> kept_hash;
+    auto hash_ray = [](const Ray & ray) {
+        uint64_t hh = 0x9e3779b9 + ray.size();
+        for (const C & cell : ray) {for (int i = 0; i < D; ++i) {hh = vh::mix(hh, cell[i]);}}
+        return hh;
+      };
+
+    auto scribble = [&](RC & x) {        // overwrite every piece of state of x with another ray
+        G & mm = *slot[cur].m;
+        x.cast(pick_point(r, mm, slot[cur].g), pick_point(r, mm, slot[cur].g));
+        C sc = x.getOriginPointIndexes(); x.next(sc); x.next(sc);
+      };
+    auto value_op = [&](int v) {
+        G * gp = slot[cur].m.get();
+        switch (v) {
+          case VO_COPY_CONSTRUCT: {std::unique_ptr<RC> n(new RC(*rcp)); scribble(*rcp); rcp = std::move(n); break;}
+          case VO_COPY_ASSIGN: {
+              std::unique_ptr<RC> n(new RC(gp)); scribble(*n); *n = *rcp; scribble(*rcp); rcp = std::move(n); break;
+            }
+          case VO_MOVE_CONSTRUCT: {std::unique_ptr<RC> n(new RC(std::move(*rcp))); scribble(*rcp); rcp = std::move(n); break;}
+          case VO_MOVE_ASSIGN: {
+              std::unique_ptr<RC> n(new RC(gp)); scribble(*n); *n = std::move(*rcp); scribble(*rcp); rcp = std::move(n); break;
+            }
+          case VO_SELF_ASSIGN: {const RC & same = *rcp; *rcp = same; break;}
+          default: {RC used_copy(*rcp); scribble(used_copy); scribble(used_copy); break;}
+        }
+        cp = rcp.get();
+        c.cat(VO_NAME[v]);
+        c.count("value_semantics_steps");
+      };
+    // other facilities used between two observations: sibling casters on the same and on the
+    // other grid, stream formatting, the mapping's own queries
+    auto interfere = [&]() {
+        G & mm = *slot[cur].m;
+        RC sib(&mm);
+        sib.cast(pick_point(r, mm, slot[cur].g), pick_point(r, mm, slot[cur].g));
+        C sc = sib.getOriginPointIndexes(); sib.next(sc);
+        if (slot[1 - cur].m) {
+          G & mo = *slot[1 - cur].m;
+          RC sib2(&mo);
+          sib2.cast(pick_point(r, mo, slot[1 - cur].g), pick_point(r, mo, slot[1 - cur].g));
+        }
+        std::ostringstream os;
+        os << mm.getCellResolution() << ' ' << sib.getEndPoint().transpose() << ' ' << sib.computeRayNumberOfCells();
+        C q = mm.computeCellIndexes(pick_point(r, mm, slot[cur].g));
+        P pc = mm.computeCellCenterPosition(q);
+        if (os.str().empty() || pc[0] != pc[0]) {c.count("interference_unexpected");}
+        c.count("interference_steps");
+      };
 
     const int ncasts = static_cast<int>(r.range(3, static_cast<int64_t>(ncasts_max)));
     P prev_o = P::Zero(), prev_e = P::Zero();
     bool have_prev = false, nontrivial = !(ScalarName<S>::bits == 64 && D == 2 && slot[0].g.symmetric);
     CastInfo ci;
     bool sampled = false;
+    kept.reserve(ncasts); kept_hash.reserve(ncasts);
 
     for (int k = 0; k < ncasts; ++k) {
       // -------- the grid seen by the caster may change between two casts of the history:
@@ -616,7 +726,7 @@ struct Runner
         } else {
           if (r.coin()) {
             slot[1 - cur].g = ng; slot[1 - cur].m = std::move(nm);
-            rc.setGridIndexMapping(slot[1 - cur].m.get());
+            cp->setGridIndexMapping(slot[1 - cur].m.get());
             cur = 1 - cur;
             c.cat("grid_change_set_mapping");
           } else {
@@ -722,27 +832,50 @@ struct Runner
       }
 
       // -------- state disturbance before the cast
-      int di = r.coin(0.35) ? DI_NONE : static_cast<int>(r.range(1, DI_COUNT - 1));
+      int di = r.coin(0.35) ? DI_NONE : static_cast<int>(r.range(1, DI_SAME_GRID_AGAIN));
+      {
+        double u = r.uni();         // a small share of long repetitions of one cheap mutator
+        if (u < 0.009) {di = DI_LONG_256;} else if (u < 0.012) {di = DI_LONG_65536;}
+      }
       // right after a grid change the origin has to be specified again before anything else
       // touches the grid: setEndPoint() alone would use the origin cell cached for the old grid
-      if (after_change && (di == DI_SETEND || di == DI_SETORIGIN)) {di = DI_NEXT;}
+      if (after_change && (di == DI_SETEND || di == DI_SETORIGIN || di == DI_LONG_256 || di == DI_LONG_65536)) {di = DI_NEXT;}
       switch (di) {
+        case DI_VALUE_OP: value_op(static_cast<int>(r.range(0, VO_COUNT - 1))); break;
+        case DI_SAME_GRID_AGAIN: cp->setGridIndexMapping(&m); break;
+        case DI_LONG_256:
+        case DI_LONG_65536: {
+            const int64_t reps = (di == DI_LONG_256 ? 256 : 65536) + r.range(0, 3);
+            const int which = static_cast<int>(r.range(0, di == DI_LONG_256 ? 3 : 2));
+            const P a = pick_point(r, m, g), b = pick_point(r, m, g);
+            C scratch = cp->getOriginPointIndexes();
+            for (int64_t q = 0; q < reps; ++q) {
+              switch (which) {
+                case 0: cp->next(scratch); break;
+                case 1: cp->setEndPoint((q & 1) ? a : b); break;
+                case 2: cp->setOriginPoint((q & 1) ? a : b); break;
+                default: {Ray tiny = cp->cast(a, a); (void)tiny; break;}
+              }
+            }
+            c.count("long_repetitions");
+            break;
+          }
         case DI_NEXT: {
-            C scratch = rc.getOriginPointIndexes();
+            C scratch = cp->getOriginPointIndexes();
             int nn = static_cast<int>(r.range(1, 40));
-            for (int q = 0; q < nn; ++q) {rc.next(scratch);}
+            for (int q = 0; q < nn; ++q) {cp->next(scratch);}
             break;
           }
         case DI_STALE_CAST: {    // cast() on whatever state is left; result deliberately unused
-            if (rc.computeRayNumberOfCells() <= 8000) {Ray junk = rc.cast(); (void)junk;}
+            if (cp->computeRayNumberOfCells() <= 8000) {Ray junk = cp->cast(); (void)junk;}
             break;
           }
         case DI_SETEND: {
-            rc.setEndPoint(pick_point(r, m, g));
-            if (r.coin()) {C scratch = rc.getOriginPointIndexes(); rc.next(scratch); rc.next(scratch);}
+            cp->setEndPoint(pick_point(r, m, g));
+            if (r.coin()) {C scratch = cp->getOriginPointIndexes(); cp->next(scratch); cp->next(scratch);}
             break;
           }
-        case DI_SETORIGIN: rc.setOriginPoint(pick_point(r, m, g)); break;
+        case DI_SETORIGIN: cp->setOriginPoint(pick_point(r, m, g)); break;
         default: break;
       }
 
@@ -755,7 +888,7 @@ struct Runner
       if (api == API_CAST_E_KEEP_ORIGIN && !(have_prev || di == DI_SETORIGIN)) {api = API_SETO_CAST_E;}
       if (api == API_CAST_E_KEEP_ORIGIN && after_change) {api = r.coin() ? API_CAST_OE : API_SETO_CAST_E;}
       if (api == API_CAST_E_KEEP_ORIGIN) {
-        o = rc.getOriginPoint();
+        o = cp->getOriginPoint();
         if (rk == RK_COINCIDENT) {e = o;}
         if (rk == RK_AXIS_ALIGNED || rk == RK_PLANAR || rk == RK_REVERSE || rk == RK_DIAGONAL ||
           rk == RK_NEAR_AXIS || rk == RK_SAME_CELL || rk == RK_EXTENT_CORNERS)
@@ -763,43 +896,89 @@ struct Runner
           rk = RK_GENERIC;       // the relation between origin and end was lost
         }
       }
-      Ray ray;
-      if (api >= API_ALIAS_FIRST) {
-        // expected ray: between the values the references have right now (copies for the oracle
-        // only; the library receives the references)
-        const P own_o = rc.getOriginPoint(), own_e = rc.getEndPoint();
-        rk = RK_GENERIC;
-        switch (api) {
-          case API_AL_CAST_END_Q: o = own_e; ray = rc.cast(rc.getEndPoint(), e); break;
-          case API_AL_CAST_P_ORIGIN: e = own_o; ray = rc.cast(o, rc.getOriginPoint()); break;
-          case API_AL_CAST_END_ORIGIN: o = own_e; e = own_o; ray = rc.cast(rc.getEndPoint(), rc.getOriginPoint()); break;
-          case API_AL_CAST_ORIGIN_END: o = own_o; e = own_e; ray = rc.cast(rc.getOriginPoint(), rc.getEndPoint()); break;
-          case API_AL_CAST_END: o = own_o; e = own_e; ray = rc.cast(rc.getEndPoint()); break;
-          case API_AL_CAST_ORIGIN: o = own_o; e = own_o; rk = RK_COINCIDENT; ray = rc.cast(rc.getOriginPoint()); break;
-          case API_AL_SETEND_ORIGIN_CAST:
-            o = own_o; e = own_o; rk = RK_COINCIDENT; rc.setEndPoint(rc.getOriginPoint()); ray = rc.cast(); break;
-          default: o = own_e; rc.setOriginPoint(rc.getEndPoint()); ray = rc.cast(e); break;
-        }
-      } else {
-      switch (api) {
-        case API_CAST_OE: ray = rc.cast(o, e); break;
-        case API_SETO_CAST_E: rc.setOriginPoint(o); ray = rc.cast(e); break;
-        case API_CAST_E_KEEP_ORIGIN: ray = rc.cast(e); break;
-        case API_SET_SET_CAST: rc.setOriginPoint(o); rc.setEndPoint(e); ray = rc.cast(); break;
-        default: {
-            rc.setOriginPoint(o); rc.setEndPoint(e);
-            size_t n = rc.computeRayNumberOfCells();
-            if (n > 100000) {n = 100000;}      // the length oracle reports it
-            ray.resize(n);
-            C cur = rc.getOriginPointIndexes();
-            if (n) {ray[0] = cur;}
-            for (size_t q = 1; q < n; ++q) {rc.next(cur); ray[q] = cur;}
-            break;
+      const bool temporaries = api < API_ALIAS_FIRST && r.coin(0.3);
+      const bool same_object_twice = api == API_CAST_OE && rk == RK_COINCIDENT && !temporaries;
+      int mid_op = -1;              // what happens between setEndPoint() and the traversal
+      if (api == API_SET_SET_CAST || api == API_NEXT_LOOP) {
+        double u = r.uni();
+        if (u < 0.25) {mid_op = static_cast<int>(r.range(0, VO_COUNT - 1));} else if (u < 0.5) {mid_op = VO_COUNT;}
+      }
+      auto between = [&]() {
+          if (mid_op < 0) {return;}
+          if (mid_op == VO_COUNT) {interfere(); c.cat("interference_between_setend_and_traversal");} else {
+            value_op(mid_op); c.cat("value_op_between_setend_and_traversal");
           }
+        };
+      auto do_cast = [&]() -> Ray {
+          Ray ray;
+          if (api >= API_ALIAS_FIRST) {
+            // expected ray: between the values the references have right now (copies for the
+            // oracle only; the library receives the references)
+            const P own_o = cp->getOriginPoint(), own_e = cp->getEndPoint();
+            rk = RK_GENERIC;
+            switch (api) {
+              case API_AL_CAST_END_Q: o = own_e; ray = cp->cast(cp->getEndPoint(), e); break;
+              case API_AL_CAST_P_ORIGIN: e = own_o; ray = cp->cast(o, cp->getOriginPoint()); break;
+              case API_AL_CAST_END_ORIGIN: o = own_e; e = own_o; ray = cp->cast(cp->getEndPoint(), cp->getOriginPoint()); break;
+              case API_AL_CAST_ORIGIN_END: o = own_o; e = own_e; ray = cp->cast(cp->getOriginPoint(), cp->getEndPoint()); break;
+              case API_AL_CAST_END: o = own_o; e = own_e; ray = cp->cast(cp->getEndPoint()); break;
+              case API_AL_CAST_ORIGIN: o = own_o; e = own_o; rk = RK_COINCIDENT; ray = cp->cast(cp->getOriginPoint()); break;
+              case API_AL_SETEND_ORIGIN_CAST:
+                o = own_o; e = own_o; rk = RK_COINCIDENT; cp->setEndPoint(cp->getOriginPoint()); ray = cp->cast(); break;
+              default: o = own_e; cp->setOriginPoint(cp->getEndPoint()); ray = cp->cast(e); break;
+            }
+            return ray;
+          }
+          switch (api) {
+            case API_CAST_OE:
+              if (same_object_twice) {ray = cp->cast(o, o);} else if (!temporaries) {ray = cp->cast(o, e);} else if (r.coin()) {
+                ray = cp->cast(P(o), P(e));
+              } else {
+                P a = o, b = e; ray = cp->cast(std::move(a), std::move(b));
+              }
+              break;
+            case API_SETO_CAST_E:
+              if (temporaries) {cp->setOriginPoint(P(o)); ray = cp->cast(P(e));} else {cp->setOriginPoint(o); ray = cp->cast(e);}
+              break;
+            case API_CAST_E_KEEP_ORIGIN: if (temporaries) {ray = cp->cast(P(e));} else {ray = cp->cast(e);} break;
+            case API_SET_SET_CAST:
+              if (temporaries) {cp->setOriginPoint(P(o)); cp->setEndPoint(P(e));} else {cp->setOriginPoint(o); cp->setEndPoint(e);}
+              between();
+              ray = cp->cast();
+              break;
+            default: {
+                cp->setOriginPoint(o); cp->setEndPoint(e);
+                const bool in_the_middle = mid_op >= 0 && r.coin(0.5);
+                if (!in_the_middle) {between();}
+                size_t n = cp->computeRayNumberOfCells();
+                if (n > 100000) {n = 100000;}      // the length oracle reports it
+                ray.resize(n);
+                C cur_cell = cp->getOriginPointIndexes();
+                if (n) {ray[0] = cur_cell;}
+                for (size_t q = 1; q < n; ++q) {
+                  if (in_the_middle && q == n / 2) {between(); c.cat("interrupted_in_the_middle_of_next_loop");}
+                  cp->next(cur_cell); ray[q] = cur_cell;
+                }
+                break;
+              }
+          }
+          return ray;
+        };
+      if (c.verbose) {      // replay: say what is about to be called, so that an abort has its witness
+        fprintf(stderr, "C14 cast_no=%d api=%s disturb=%s grid=%s ncells=%s o=%s e=%s\n", k, API_NAME[api], DI_NAME[di],
+          g.json().c_str(), vh::jvec(nc.template cast<double>()).c_str(), vh::jvec(o).c_str(), vh::jvec(e).c_str());
       }
-      }
+      kept.push_back(do_cast());
+      const Ray & ray = kept.back();          // bound as returned, kept until the end of the case
+      kept_hash.push_back(hash_ray(ray));
+      // references to the caster's members, bound now and read after other objects were used
+      ci.bound_o = &cp->getOriginPoint(); ci.bound_e = &cp->getEndPoint();
+      ci.bound_oi = &cp->getOriginPointIndexes(); ci.bound_ei = &cp->getEndPointIndexes();
+      if (temporaries) {c.cat("arguments_as_temporaries");}
+      if (same_object_twice) {c.cat("same_object_for_both_arguments");}
       RC fresh_caster(&m);
       Ray fresh = fresh_caster.cast(o, e);
+      if (r.coin(0.15)) {interfere(); c.cat("interference_after_cast");}
 
       c.cat(RK_NAME[rk]); c.cat(API_NAME[api]); c.cat(DI_NAME[di]);
       c.count("casts");
@@ -818,8 +997,19 @@ struct Runner
                    .f("first_cells_returned", static_cast<uint64_t>(ray.size())).str();
           });
       }
-      check_cast(c, ci, ray, fresh, rc);
+      check_cast(c, ci, ray, fresh, *cp);
       prev_o = o; prev_e = e; have_prev = true;
+    }
+    // -------- every ray returned during the case is still what it was when it was returned
+    {
+      bool same = true; size_t bad = 0;
+      for (size_t q = 0; q < kept.size(); ++q) {if (hash_ray(kept[q]) != kept_hash[q]) {same = false; bad = q; break;}}
+      c.expect("result.kept_rays_unchanged", same, "result_changed_later", [&]() {
+          return vh::Params{{"scalar_bits", ScalarName<S>::bits}, {"dim", D}, {"cast_no", static_cast<double>(bad)}};
+        }, [&]() {
+          return vh::J().raw("grid", slot[cur].g.json()).f("cast_no", static_cast<uint64_t>(bad))
+                 .f("casts_in_sequence", ncasts).str();
+        });
     }
     c.distinct(h, nontrivial);
   }
